@@ -187,6 +187,8 @@ def gen_call(rng, reg, enter, w_required=0.0, w_bad=0.05):
     op['_via'] = 'get_configurable'
   if rng.random() < 0.1:
     op['_left_by'] = [rng.choice(['zz', 'a', 'a/b']), rng.random() < 0.6]
+  if len(enter) >= 2 and rng.random() < 0.3:
+    op['_precreate'] = True
   if enter and rng.random() < 0.12:
     # inside the entered scopes, a scope entry that is rejected (and caught) must leave them intact
     op['_bad_enter'] = rng.choice(['not valid!', 'a b', '1x', 'a//b', '/a', 'a/', 42])
@@ -310,7 +312,10 @@ def gen_hook(rng, regs, scopes, w_raise=0.1, earlier=None):
     seen.add(ident)
     ks['_val'] = val
     ret.append([ks, val])
-  return {'op': 'hook', 'ret': ret, 'raises': False}
+  out = {'op': 'hook', 'ret': ret, 'raises': False}
+  if rng.random() < 0.3:
+    out['_mapping'] = rng.choice(['proxy', 'chain'])    # the bindings come back as a mapping that is not a dict
+  return out
 
 
 def hook_keyspecs(hook, regs):
